@@ -273,6 +273,11 @@ class ColumnStatHelper:
         self.compressed = False
 
     def compress(self):
+        if not self.sampled:
+            # nothing sampled yet (no numeric value seen)
+            self.compressed = True
+            return
+
         merge_threshold = self.merge_threshold()
 
         reverse_compressed_sample = []
@@ -334,6 +339,15 @@ class ColumnStatHelper:
     def merge_moments(self, other):
         n1 = self.count
         n2 = other.count
+        if n2 == 0:
+            # the other side saw no value: nothing to merge
+            return
+        if n1 == 0:
+            # this side saw no value: take the other side's moments
+            self.m2 = other.m2
+            self.m3 = other.m3
+            self.m4 = other.m4
+            return
         new_count = n1 + n2
         delta = other.mean - self.mean
         deltaN = delta / new_count if new_count != 0 else 0
